@@ -191,7 +191,9 @@ TIOWriteData ==
         /\ Expect(pg \cap w.written = {}, "page written twice")
         /\ Expect(opt.noGrowSync \/ E.off + E.len <= fs.len, <<"write beyond the end of the file without growing it first (C01)", fs.len>>)
         /\ Expect(SizeOK(E.off + E.len), <<"file grown beyond MaxSize by a write (C18)", opt.maxSize>>)
-        /\ IF E.fail THEN /\ w' = [w EXCEPT !.failed = TRUE] /\ fs' = [fs EXCEPT !.unsynced = @ \cup {E.idx}]
+        /\ IF E.fail THEN /\ w' = [w EXCEPT !.failed = TRUE]
+                          /\ fs' = [fs EXCEPT !.unsynced = @ \cup {E.idx},
+                                              !.len = IF E.short > 0 THEN Max(fs.len, E.off + E.short) ELSE fs.len]
            ELSE /\ w' = [w EXCEPT !.written = @ \cup pg]
                 /\ fs' = [fs EXCEPT !.len = Max(fs.len, E.off + E.len), !.unsynced = @ \cup {E.idx}]
    /\ UNCHANGED <<free, pend, readers, tree, flp, flc, vhwm, cur, opt>>
@@ -199,10 +201,13 @@ TIOWriteData ==
 TIOWriteMeta ==
    /\ IsEvent("IO") /\ w.open /\ E.kind = "write" /\ E.off < 2 * opt.ps
    /\ Expect(w.metaEv /\ ~w.metaw /\ E.off = (w.txid % 2) * opt.ps /\ E.len = opt.ps, "unexpected write to a meta page (C06)")
-   /\ IF E.fail
+   \* a failed write that still put the whole 80-byte header + meta structure into the page cache has
+   \* published the new meta; a shorter prefix leaves a torn (invalid) copy in the slot of the OLDER meta
+   /\ LET written == ~E.fail \/ E.short >= 80 IN
+      IF ~written
       THEN /\ w' = [w EXCEPT !.failed = TRUE] /\ UNCHANGED <<tree, flp, flc, vhwm, cur>>
            /\ fs' = fs
-      ELSE /\ w' = [w EXCEPT !.metaw = TRUE]
+      ELSE /\ w' = [w EXCEPT !.metaw = TRUE, !.failed = E.fail]
            /\ tree' = Put(tree, w.txid, w.ntree) /\ flp' = Put(flp, w.txid, w.nfl)
            /\ flc' = Put(flc, w.txid, w.nflc) /\ vhwm' = Put(vhwm, w.txid, w.hwm)
            /\ cur' = w.txid
